@@ -37,6 +37,7 @@
 static void dump_associated_rules(FILE *, int);
 static void dump_transitions(FILE *, int[]);
 static int  snstods(int[], int, int[], int, int, int *);
+static void mark_rules_useful(int);
 static void sympartition(int[], int, int[], int[]);
 static int  symfollowset(int[], int, int, int[]);
 
@@ -614,6 +615,7 @@ size_t ntod (void)
 					}
 
 					state[sym] = newds;
+					mark_rules_useful (newds);
 
 					if (env.trace)
 						fprintf (stderr,
@@ -862,11 +864,6 @@ static int snstods(int sns[], int numstates, int accset[], int nacc, int hashval
 		for (i = 1; i <= nacc; ++i) {
 			dfaacc[newds].dfaacc_set[i] = accset[i];
 
-			if (accset[i] <= num_rules)
-				/* Who knows, perhaps a REJECT can yield
-				 * this rule.
-				 */
-				rule_useful[accset[i]] = true;
 		}
 
 		accsiz[newds] = nacc;
@@ -883,14 +880,38 @@ static int snstods(int sns[], int numstates, int accset[], int nacc, int hashval
 				j = accset[i];
 
 		dfaacc[newds].dfaacc_state = j;
-
-		if (j <= num_rules)
-			rule_useful[j] = true;
 	}
 
 	*newds_addr = newds;
 
 	return 1;
+}
+
+
+/* mark_rules_useful - note which rules the DFA state "ds" can select
+ *
+ * Called for every state that is the target of a transition: a token is
+ * at least one character long, so a rule that is accepting only in a start
+ * state (it matches nothing but the empty string there) can never be
+ * matched and must get the "rule cannot be matched" warning.
+ */
+
+static void mark_rules_useful (int ds)
+{
+	int     i;
+
+	if (reject) {
+		for (i = 1; i <= accsiz[ds]; ++i)
+			if (dfaacc[ds].dfaacc_set[i] <= num_rules)
+				/* Who knows, perhaps a REJECT can yield
+				 * this rule.
+				 */
+				rule_useful[dfaacc[ds].dfaacc_set[i]] = true;
+	}
+
+	else if (dfaacc[ds].dfaacc_state > 0
+		 && dfaacc[ds].dfaacc_state <= num_rules)
+		rule_useful[dfaacc[ds].dfaacc_state] = true;
 }
 
 
